@@ -127,6 +127,16 @@ func genCluster(r *mrand.Rand, prop, tier string) simcore.Case {
 				cs.Ops = append(cs.Ops, simcore.Op{K: "kill-worker", A: []int64{at, int64(r.IntN(3)), 1 + int64(r.IntN(20))}})
 			}
 		}
+	case "C04":
+		// one run in four reads a Kinesis stream whose shards split, merge, finish and appear
+		// while the job runs (failure-free: nothing is restored)
+		if r.IntN(4) == 0 {
+			cs.Cfg["kin"] = 1
+			cs.Cfg["reshards"] = pick(0, 1, 2, 3, 5)
+			cs.Cfg["kinpre"] = pick(0, 30, 60, 100)
+			cs.Cfg["discover_s"] = pick(1, 2, 10)
+			cs.Cfg["poll_ms"] = pick(100, 300) // short polls: a split assignment never holds the job's task queue for long
+		}
 	case "C16":
 		cs.Cfg["kin"] = pick(0, 1, 1)
 		cs.Cfg["reshards"] = pick(0, 1, 2, 3, 5, 8)
